@@ -35,6 +35,8 @@ func TestReplay(t *testing.T) {
 		key, msg = replayScript(t, f.Script, monitorC09)
 	case "TestC07Envelope":
 		key, msg = replayC07Env(t, f.Script)
+	case "TestC08Real":
+		key, msg = replayReal(f.Script)
 	default:
 		t.Fatalf("no replay handler for %s", f.Test)
 	}
